@@ -8,3 +8,4 @@ import Proofs.C05
 #print axioms C05.subname_key
 #print axioms C05.gomaxprocs_key
 #print axioms C05.config_key
+#print axioms C05.fullname_excluding_spec
